@@ -211,6 +211,22 @@ def run(pid, tier, seed):
                 for o in ([[]] if tier == "quick" else [[], ["--blocksz", "64"], ["--blocksz", "1024"]]):
                     cases.append(("utmp:" + label, Case({"wtmp": blob}, ["--color", "never"] + o + ["wtmp"]),
                                   Case(files, ["--color", "never"] + o + [arg])))
+        # a year-less text log is dated from the modification time: the plain file's, the one stored in the gzip header
+        # (0 = "no time stamp": then the .gz file's own), the tar member's -- the dated output (-u) must be the same
+        yl = b"".join(b"%s %2d %02d:%02d:%02d host app[%d]: yearless %d\n" % (mon, day, hh, mm, 7, 100 + i, i)
+                      for i, (mon, day, hh, mm) in enumerate([(b"Nov", 3, 1, 2), (b"Dec", 30, 10, 0), (b"Dec", 31, 23, 59), (b"Jan", 1, 0, 0), (b"Feb", 7, 8, 9)]))
+        t_true = 1675757400      # 2023-02-07T08:10:00Z, a moment after the last message
+        decoy_t = t_true - 900 * 86400
+        ydate = ["--color", "never", "-u", "-d", "%Y%m%dT%H%M%S"]
+        for label, files, arg, mt in (
+                ("yearless:gz-header-mtime", {"y.log.gz": gen.gz_bytes(yl, mtime=t_true)}, "y.log.gz", decoy_t),
+                ("yearless:gz-header-mtime-fname", {"y.log.gz": gen.gz_bytes(yl, mtime=t_true, name="y.log")}, "y.log.gz", decoy_t),
+                ("yearless:gz-mtime0-file-time", {"y.log.gz": gen.gz_bytes(yl, mtime=0)}, "y.log.gz", t_true),
+                ("yearless:gz-mtime0-fname-file-time", {"y.log.gz": gen.gz_bytes(yl, mtime=0, name="y.log")}, "y.log.gz", t_true),
+                ("yearless:tar-member-mtime", {"y.tar": gen.tar_bytes([("y.log", yl)], mtime=t_true)}, "y.tar", decoy_t)):
+            for o in ([], ["-a", "2023-01-01T00:00:00+00:00"], ["-b", "2022-12-31T23:59:59+00:00"]):
+                cases.append(("text:" + label, Case({"y.log": yl}, ydate + o + ["y.log"], mtimes={"y.log": t_true}),
+                              Case(files, ydate + o + [arg], mtimes={arg: mt})))
         # tar with several members in every position
         for nm in (2, 3, 4) if tier == "thorough" else (3,):
             members = [("m%d.log" % j, text_blob(rng, rng.choice([80, 900, 5000]))) for j in range(nm)]
@@ -306,7 +322,11 @@ def run(pid, tier, seed):
         for bi, (members, plain_argv) in enumerate([
                 ([("archive/system.journal", "r.journal"), ("system.journal", "u.journal")], ["r.journal", "u.journal"]),
                 ([("system.journal", "u.journal"), ("archive/system.journal", "r.journal")], ["u.journal", "r.journal"]),
-                ([("logs/k.evtx", "k.evtx"), ("sub/u.journal", "u.journal"), ("u.journal", "r.journal")], ["k.evtx", "u.journal", "r.journal"])]):
+                ([("logs/k.evtx", "k.evtx"), ("sub/u.journal", "u.journal"), ("u.journal", "r.journal")], ["k.evtx", "u.journal", "r.journal"]),
+                # member paths beyond the 100-byte name field (GNU long-name records)
+                ([("evidence/HOST-WIN11-LAB/C/Windows/System32/winevt/Logs/Microsoft-Windows-Kernel-PnP%4Configuration.evtx", "k.evtx"),
+                  ("var/log/journal/0123456789abcdef0123456789abcdef/user-1000@0123456789abcdef0123456789abcdef-0000000000000001.journal", "u.journal")],
+                 ["k.evtx", "u.journal"])]):
             tname = "bundle%d.tar" % bi
             with open(os.path.join(sdir, tname), "wb") as f:
                 f.write(gen.tar_bytes([(mn, rd(src_)) for mn, src_ in members], fmt=tarfile.GNU_FORMAT))
